@@ -3,28 +3,6 @@ import RtenVerif.Props.C10Where
 /-! # C10 — the `BinaryOp` broadcasting shape rule -/
 namespace RtenVerif.ShapeInfer
 
-/-- NumPy broadcasting of two dimension sizes. -/
-def cb (x y : Int) : Option Int :=
-  if x = y then some x else if x = 1 then some y else if y = 1 then some x else none
-
-/-- Broadcasting of two equally long (already padded) shapes. -/
-def cbs : List Int → List Int → Option (List Int)
-  | x :: xs, y :: ys =>
-    match cb x y with
-    | none => none
-    | some z =>
-      match cbs xs ys with
-      | none => none
-      | some r => some (z :: r)
-  | _, _ => some []
-
-def padC (n : Nat) (ds : List Int) : List Int := List.replicate (n - ds.length) 1 ++ ds
-
-/-- NumPy broadcasting of two shapes. -/
-def cbroadcast (da db : List Int) : Option (List Int) :=
-  let n := Nat.max da.length db.length
-  cbs (padC n da) (padC n db)
-
 theorem isOne_eval (σ : Env) (a : Sym) (h : a.isOne = true) : a.eval σ = some 1 := by
   cases a <;> simp_all [Sym.isOne, Sym.eval]
 
